@@ -382,6 +382,13 @@ def execMachine : Machine ExecD where
     | "finished", [i] => evStep (.finished i.toNat!)
     | "closecalled", [] => evStep .closeCalled
     | "closereturned", [] => evStep .closeReturned
+    | "closereturned", ["true"] => evStep .closeReturned
+    -- an unbounded close never answers false: no transition
+    | "closereturned", ["false"] => none
+    | "boundedclosecalled", [] => evStep .closeCalled
+    | "boundedclosereturned", ["true"] => evStep .closeReturned
+    | "boundedclosereturned", ["false"] => evStep .closeExpired
+    | "cancelall", [] => evStep .cancelAll
     | "callback", [] => evStep .callback
     | "account", [v, to, letters] =>
         let variant := match v with
